@@ -54,10 +54,18 @@ type trackedMsg struct {
 	snap  proto.Message
 }
 
+// trackedEvent is a change event object (the struct a subscriber was handed a pointer to) with a copy of its fields.
+type trackedEvent struct {
+	label string
+	ptr   reflect.Value // pointer to the event struct
+	snap  any           // the struct's value when it was received (comparable: strings, times, flags, message pointers)
+}
+
 type aliasMon struct {
 	mu    sync.Mutex
 	w     *World
 	items []trackedMsg
+	evs   []trackedEvent
 	dead  bool
 	key   map[string]any
 }
@@ -82,12 +90,37 @@ func (a *aliasMon) track(label string, m proto.Message) {
 	}
 }
 
+// trackEvent records a received change event object itself: which messages it points to, its kind, id and flags are
+// what the subscriber was told, and stay that.
+func (a *aliasMon) trackEvent(label string, ev any) {
+	v := reflect.ValueOf(ev)
+	if v.Kind() != reflect.Ptr || v.IsNil() || v.Elem().Kind() != reflect.Struct || !v.Elem().Type().Comparable() {
+		return
+	}
+	a.mu.Lock()
+	defer a.mu.Unlock()
+	if len(a.evs) < 200 {
+		a.evs = append(a.evs, trackedEvent{label: label, ptr: v, snap: v.Elem().Interface()})
+	}
+}
+
 // check re-compares everything recorded so far.
 func (a *aliasMon) check(after string) bool {
 	a.mu.Lock()
 	defer a.mu.Unlock()
 	if a.dead {
 		return false
+	}
+	for _, it := range a.evs {
+		if now := it.ptr.Elem().Interface(); now != it.snap {
+			a.dead = true
+			k := map[string]any{"holder": strings.SplitN(it.label, ":", 2)[0], "what": "event"}
+			for x, y := range a.key {
+				k[x] = y
+			}
+			a.w.Violate("message-changed", fmt.Sprintf("the change event received as [%s] was altered after [%s]\n  when received: %+v\n  now:           %+v", it.label, after, it.snap, now), k)
+			return false
+		}
 	}
 	for _, it := range a.items {
 		if !proto.Equal(it.ptr, it.snap) {
@@ -209,6 +242,7 @@ func aliasResRun(w *World) {
 					if !ok {
 						return
 					}
+					mon.trackEvent(fmt.Sprintf("s%d: event %s(%s)", i, e.ChangeType, e.Id), e)
 					mon.track(fmt.Sprintf("s%d: event %s(%s) new value", i, e.ChangeType, e.Id), e.NewValue)
 					mon.track(fmt.Sprintf("s%d: event %s(%s) old value", i, e.ChangeType, e.Id), e.OldValue)
 				}
@@ -220,6 +254,7 @@ func aliasResRun(w *World) {
 				if !ok {
 					return
 				}
+				mon.trackEvent(fmt.Sprintf("s%d: event", i), e)
 				mon.track(fmt.Sprintf("s%d: event value", i), e.Value)
 			}
 		})
